@@ -633,26 +633,27 @@ Qed.
 
 (* ---------------------------------------------------------------- result of Run, K1 *)
 
-Open Scope string_scope.
-
 (** cancellation only: every goroutine returns nil or a connection-closed error -> Run returns nil *)
 Theorem run_cancel_returns_nil node results :
-  (forall e, In (Some e) results -> contains "closed" e = true) -> run_result node results = None.
+  (forall e, In (Some e) results -> contains (txt "closed") e = true) -> run_result node results = None.
 Proof.
-  unfold run_result. induction results as [|[e|] tl IH]; intros H; cbn; auto.
-  - rewrite (H e (or_introl eq_refl)). reflexivity.
+  unfold run_result. induction results as [|[e|] tl IH]; intros H; cbn [first_error]; auto.
+  - change closed_text with (txt "closed"). rewrite (H e (or_introl eq_refl)). reflexivity.
   - apply IH. intros e He. apply H. right. exact He.
 Qed.
 
 (** a failure whose text does not contain "closed" is returned, wrapped *)
 Theorem run_error_returned node e rest :
-  contains "closed" e = false -> run_result node (Some e :: rest) = run_spec node (Some e).
-Proof. intros H. unfold run_result, run_spec. cbn [first_error]. rewrite H. reflexivity. Qed.
+  contains (txt "closed") e = false -> run_result node (Some e :: rest) = run_spec node (Some e).
+Proof.
+  intros H. unfold run_result, run_spec. cbn [first_error].
+  change closed_text with (txt "closed"). rewrite H. reflexivity.
+Qed.
 
 (** K1: without the hypothesis on the text the statement is false - an after-receive hook
     returning errors.New("valve closed") makes the receiver return "receiver: valve closed",
     which Run maps to nil although the property demands that error *)
 Theorem run_error_refuted :
   exists e node, run_result node [Some (wrap_receiver e)] = None /\
-                 run_spec node (Some (wrap_receiver e)) <> None /\ e = "valve closed".
-Proof. exists "valve closed", "DRIVER". repeat split. discriminate. Qed.
+                 run_spec node (Some (wrap_receiver e)) <> None /\ e = txt "valve closed".
+Proof. exists (txt "valve closed"), (txt "DRIVER"). repeat split. discriminate. Qed.
